@@ -13,6 +13,11 @@ comma-separated ints (`1,2,0`; a network node or Voronoi index is a single int);
   nbagents c r ic                                          -> agents in the (memoised) neighbourhood, sorted
   connect c c2 key|- | disconnect c c2                     -> result only (`Cell.connect(other, key)` / `Cell.disconnect(other)`
                                                               after construction; `-`: the default key `other.coordinate`)
+  coll <expr> cells|agents|len|same | has c | get c | randcell d... | randagent d...   -> result only (CellCollection API)
+      <expr> = <base>[+<filter>:<at_most>]...   base = all | empties | nb:<c>:<r>:<ic> | nbp:<c>   (all_cells, empties,
+      get_neighborhood, neighborhood); filter = none|empty|occupied|full|notfull; at_most = inf | <int> | <num>/<den> (float).
+      Collections whose order the API fixes (all, empties, their selections) are compared in order, with the selected
+      cell / agent; neighbourhood-based ones as sets (sorted) and random picks by position `pos=i/len` and draws `used=k`.
 """
 from __future__ import annotations
 
@@ -258,7 +263,25 @@ def exc_name(e):
 
 
 EDITS = ("connect", "disconnect")
-QUERIES = ("conns", "nbhd", "nbprop", "mask", "nbagents") + EDITS  # lines answered with a result only (no dump)
+QUERIES = ("conns", "nbhd", "nbprop", "mask", "nbagents", "coll") + EDITS  # lines answered with a result only (no dump)
+
+FILTERS = {
+    "none": None,
+    "empty": lambda cell: cell.is_empty,
+    "occupied": lambda cell: not cell.is_empty,
+    "full": lambda cell: cell.is_full,
+    "notfull": lambda cell: not cell.is_full,
+}
+
+
+def parse_at_most(m):
+    """`inf` -> None (argument omitted), `<int>` -> int, `<a>/<b>` -> the float a/b"""
+    if m == "inf":
+        return None
+    if "/" in m:
+        a, b = m.split("/")
+        return int(a) / int(b)
+    return int(m)
 
 
 class Header:
@@ -380,8 +403,86 @@ class Impl:
             raise ValueError(w)
         return "ok"
 
+    def build_coll(self, expr):
+        """collection expression -> (CellCollection, order fixed by the API, last select returned its receiver)"""
+        sp = self.space
+        parts = expr.split("+")
+        b = parts[0].split(":")
+        if b[0] == "all":
+            coll = sp.all_cells
+        elif b[0] == "empties":
+            coll = sp.empties
+        elif b[0] == "nb":
+            coll = sp[self.h.key(b[1])].get_neighborhood(int(b[2]), b[3] == "1")
+        elif b[0] == "nbp":
+            coll = sp[self.h.key(b[1])].neighborhood
+        else:
+            raise ValueError(expr)
+        same = False
+        for p in parts[1:]:
+            f, m = p.split(":")
+            kw = {}
+            if f != "none":
+                kw["filter_func"] = FILTERS[f]
+            if parse_at_most(m) is not None:
+                kw["at_most"] = parse_at_most(m)
+            new = coll.select(**kw)
+            same, coll = new is coll, new
+        return coll, b[0] in ("all", "empties"), same
+
+    def coll_line(self, w):
+        coll, ordered, same = self.build_coll(w[1])
+        verb = w[2]
+        cells = list(coll)
+        # the views of one collection must agree with each other, and it must carry the space's generator
+        odd = []
+        if list(coll.cells) != cells or len(coll) != len(cells):
+            odd.append("cells/iter/len-differ")
+        if coll.random is not self.rng:
+            odd.append("other-generator")
+        if any(coll[c] is not c._agents for c in cells):
+            odd.append("not-the-live-agent-lists")
+        tail = (" INCONSISTENT:" + ",".join(odd)) if odd else ""
+        names = [self.cname(c) for c in cells]
+        if verb == "cells":
+            if not ordered:
+                names = [fmt_name(k) for k in sorted(parse_tuple(n) for n in names)]
+            return "ok " + " ".join(names) + tail
+        if verb == "agents":
+            ids = [a._vidx for a in coll.agents]
+            return "ok " + " ".join(map(str, ids if ordered else sorted(ids))) + tail
+        if verb == "len":
+            return f"ok {len(coll)}" + tail
+        if verb == "same":
+            if len(w[1].split("+")) < 2:
+                raise ValueError(w)
+            return f"ok {int(same)}" + tail
+        if verb == "has":
+            return f"ok {int(self.space[self.h.key(w[3])] in coll)}" + tail
+        if verb == "get":
+            return "ok " + ".".join(str(a._vidx) for a in coll[self.space[self.h.key(w[3])]]) + tail
+        if verb in ("randcell", "randagent"):
+            draws = [int(x) for x in w[3:]]
+            self.rng.script = list(draws)
+            if verb == "randcell":
+                pop = cells
+                x = coll.select_random_cell()
+                name = self.cname(x)
+            else:
+                pop = list(coll.agents)
+                x = coll.select_random_agent()
+                name = str(x._vidx)
+            used = len(draws) - len(self.rng.script)
+            pos = next((i for i, y in enumerate(pop) if y is x), None)
+            if pos is None:
+                tail += " INCONSISTENT:result-not-in-population"
+            return ("ok " + name if ordered else "ok") + f" pos={pos}/{len(pop)} used={used}" + tail
+        raise ValueError(w)
+
     def query(self, w):
         sp, k = self.space, w[0]
+        if k == "coll":
+            return self.coll_line(w)
         if k == "connect":
             sp[self.h.key(w[1])].connect(sp[self.h.key(w[2])], None if w[3] == "-" else self.h.key(w[3]))
             return "ok"
@@ -552,6 +653,109 @@ def within(conn, c, r):
         if not frontier:
             break
     return seen
+
+
+def spec_coll(expr, h, conn, names, occ, cap):
+    """a collection expression from first principles: (error | None, cell names, order fixed, exact).
+    `occ`: {cell name: [agent ids]} as the last dump showed it; `exact` is False where only the size and membership
+    are determined (a bounded selection out of a neighbourhood, whose order the property does not fix) or where the
+    documentation is silent (a float `at_most` above 1)"""
+    parts = expr.split("+")
+    b = parts[0].split(":")
+    ordered, exact = b[0] in ("all", "empties"), True
+    if b[0] == "all":
+        cells = list(names)
+    elif b[0] == "empties":
+        cells = [n for n in names if not occ.get(n)]
+    else:
+        try:
+            key = h.key(b[1])
+        except ValueError:
+            return "Key", None, ordered, exact
+        if key not in conn:
+            return "Key", None, ordered, exact
+        r, ic = (int(b[2]), b[3] == "1") if b[0] == "nb" else (1, False)
+        if r < 1:
+            return "Value", None, ordered, exact
+        reach = within(conn, key, r)
+        if not ic:
+            reach.discard(key)
+        cells = [fmt_name(k) for k in sorted(k if isinstance(k, tuple) else (k,) for k in reach)]
+    preds = {"none": lambda n: True, "empty": lambda n: not occ.get(n), "occupied": lambda n: bool(occ.get(n)),
+             "full": lambda n: cap is not None and len(occ.get(n, [])) == cap,
+             "notfull": lambda n: not (cap is not None and len(occ.get(n, [])) == cap)}
+    for p in parts[1:]:
+        f, m = p.split(":")
+        match = [n for n in cells if preds[f](n)]
+        if m == "inf":
+            cells = match
+            continue
+        if "/" in m:
+            a, d = (int(x) for x in m.split("/"))
+            if a > d:
+                exact = False  # "at most 2.5 cells": the documentation does not say
+                limit = -(-a // d)
+            else:
+                limit = len(cells) * a // d  # "at most that fraction of original number of cells", rounded down
+        else:
+            limit = max(0, int(m))
+        if not ordered and limit < len(match):
+            exact = False
+        cells = match[:limit]
+    return None, cells, ordered, exact
+
+
+def oracle_coll(line, o, h, conn, names, occ, cap):
+    """the clauses about one `coll` line: the views of a collection are those of its cells *now*, selections are
+    order-preserving filters, random selections draw once from the collection's own generator over its population"""
+    bad = []
+    w = line.split()
+    if "INCONSISTENT" in o:
+        bad.append(f"coll-views: `{line}` -> {o}")
+        return bad
+    err, cells, ordered, exact = spec_coll(w[1], h, conn, names, occ, cap)
+    verb = w[2]
+    if err:
+        if o != "err " + err:
+            bad.append(f"coll-reject: `{line}` -> {o}, expected err {err}")
+        return bad
+    agents = [a for n in cells for a in occ.get(n, [])]
+    ans = o.split()[1:] if o.startswith("ok") else None
+    if verb == "len":
+        if exact and o != f"ok {len(cells)}":
+            bad.append(f"coll-len: `{line}` -> {o}, the collection has {len(cells)} cells")
+    elif verb == "cells" and exact:
+        if ans != cells:
+            bad.append(f"coll-cells: `{line}` -> {o}, expected {cells}")
+    elif verb == "agents" and exact:
+        want = agents if ordered else sorted(agents, key=int)
+        if ans != want:
+            bad.append(f"coll-agents: `{line}` -> {o}, the cells hold {want}")
+    elif verb == "has" and exact:
+        try:
+            known = h.key(w[3]) in conn
+        except ValueError:
+            known = False
+        want = ("ok 1" if w[3] in cells else "ok 0") if known else "err Key"
+        if o != want:
+            bad.append(f"coll-in: `{line}` -> {o}, expected {want}")
+    elif verb == "get" and exact:
+        want = "ok " + ".".join(occ.get(w[3], [])) if w[3] in cells else "err Key"
+        if o.strip() != want.strip():
+            bad.append(f"coll-getitem: `{line}` -> {o}, expected {want}")
+    elif verb in ("randcell", "randagent") and exact:
+        pop = cells if verb == "randcell" else agents
+        draws = [int(x) for x in w[3:]]
+        if not pop:
+            want = "err Index"
+        elif not draws:
+            want = "err Script"
+        else:
+            i = draws[0] % len(pop)
+            want = (f"ok {pop[i]}" if ordered else "ok") + f" pos={i}/{len(pop)} used=1"
+        if o != want:
+            bad.append(f"coll-random: `{line}` -> {o}, one draw over the population {pop if ordered else sorted(pop)} gives {want}")
+    return bad
 
 
 # --------------------------------------------------------------------------------------
@@ -730,6 +934,59 @@ def gen_draws(R, impl, want_hit):
     return [R.randrange(0, 3 * n)] if want_hit else []
 
 
+def gen_coll(R, h, names, impl=None, agents=True):
+    """a `coll` line: a collection expression (all_cells / empties / a neighbourhood, optionally narrowed by `select`
+    steps) and one use of the CellCollection API on it"""
+    near = None
+    if impl is not None and R.random() < 0.7:
+        placed = [a.cell for a in impl.agents if getattr(a, "cell", None) is not None and id(a.cell) in impl.name]
+        if placed:
+            near = impl.cname(R.choice(placed))
+    k = R.random()
+    if k < 0.30:
+        base = "all"
+    elif k < 0.50:
+        base = "empties"
+    elif k < 0.90:
+        c = near if near is not None else R.choice(names)
+        if R.random() < 0.03:
+            c = ",".join(str(d) for d in h.dims) if h.kind == "grid" else str(h.n + 2)  # no such cell
+        base = f"nb:{c}:{R.choice([1, 1, 1, 2, 2, 3, 0])}:{R.randint(0, 1)}"
+    else:
+        base = f"nbp:{near if near is not None else R.choice(names)}"
+    ordered = base in ("all", "empties")
+    expr, bounded = base, False
+    for _ in range(R.choice([0, 0, 0, 1, 1, 1, 2])):
+        f = R.choice(["none", "none", "empty", "occupied", "occupied", "full", "notfull"])
+        if ordered:
+            m = R.choice(["inf", "inf", "inf", "0", "1", "2", "3", "-1", "1/2", "1/4", "3/4", "1/1", "0/1", "3/2", "5/2"])
+        else:
+            m = R.choice(["inf", "inf", "inf", "inf", "1", "2", "1/2"])
+        bounded = bounded or (m != "inf")
+        expr += f"+{f}:{m}"
+        if bounded and not ordered:
+            break  # what a bounded selection keeps out of a neighbourhood depends on the order inside it: nothing may follow
+    if not ordered and bounded:
+        # which cells a bounded selection keeps out of a neighbourhood depends on the order inside it: only sizes compared
+        verbs = ["len", "len", "same"]
+    else:
+        verbs = ["cells", "cells", "agents", "agents", "len", "has", "get", "randcell", "randcell", "randagent", "randagent"]
+        if "+" in expr:
+            verbs.append("same")
+        if not agents:
+            verbs = [v for v in verbs if v not in ("agents", "randagent", "get")] + ["cells", "has"]
+    verb = R.choice(verbs)
+    if verb in ("has", "get"):
+        c = near if near is not None and R.random() < 0.5 else R.choice(names)
+        if R.random() < 0.05:
+            c = ",".join(str(d + 1) for d in h.dims) if h.kind == "grid" else str(h.n + 1)
+        return f"coll {expr} {verb} {c}"
+    if verb in ("randcell", "randagent"):
+        draws = [R.randrange(60) for _ in range(R.choice([0, 1, 1, 1, 1, 1, 2, 3]))]
+        return f"coll {expr} {verb} " + " ".join(map(str, draws))
+    return f"coll {expr} {verb}"
+
+
 def gen_c06(R, rejecting=False, n_ops=None, header=None, edits=False):
     hd = header or (gen_header(R) if not rejecting else
                     R.choice([gen_grid_header(R, max_size=3, caps=(1, 1, 1, 2), max_cells=12),
@@ -777,6 +1034,10 @@ def gen_c06(R, rejecting=False, n_ops=None, header=None, edits=False):
             m = g = None
         m = a if m is None else m
         g = a if g is None else g
+        if R.random() < (0.05 if rejecting else 0.12):
+            # the CellCollection API on all_cells / empties / neighbourhoods / selections, at the current occupancy
+            emit(gen_coll(R, h, names, impl).rstrip())
+            continue
         if edits and R.random() < 0.05:
             # connections edited after construction, mostly at the cell of an agent that can move: later relative moves
             # and neighbourhood views follow the edited structure
@@ -857,10 +1118,13 @@ def oracle_c06(sc, obs, reject_clause=True):
     names = cell_names(h)
     cap = h.cap
     prev = None
-    conn = spec_connections(h) if any(l.split()[0] in EDITS + ("nbagents",) for l in sc.lines[1:]) else None
+    conn = spec_connections(h) if any(l.split()[0] in EDITS + ("nbagents", "coll") for l in sc.lines[1:]) else None
     for line, o in zip(sc.lines[1:], obs[1:]):
         w = line.split()
         if w[0] in QUERIES:
+            if w[0] == "coll":
+                pocc = {t.partition(":")[0]: t.partition(":")[2].split(".") for t in prev["occ"]} if prev else {}
+                bad += oracle_coll(line, o, h, conn, names, pocc, cap)
             if w[0] in EDITS:
                 # connections edited after construction: the neighbourhoods below are those of the edited structure
                 want = expect_edit(conn, h, w)
@@ -956,6 +1220,11 @@ def tags_c06(sc, obs):
         w = l.split()
         res = o.split(" | ")[0]
         yield "op:" + w[0]
+        if w[0] == "coll":
+            yield "coll:" + w[2]
+            yield "coll-base:" + w[1].split("+")[0].split(":")[0] + ("+select" if "+" in w[1] else "")
+            if w[2] in ("randcell", "randagent") and res.startswith("ok") and len(w) > 4:
+                yield "coll:spare-draws-left-alone"
         if res.startswith("err"):
             yield f"reject:{w[0]}:{res.split()[1]}"
         if w[0] == "randempty" and res.startswith("ok"):
@@ -1088,8 +1357,12 @@ def gen_c07(R, tier):
             qs.append(f"nbhd {n} {r} {R.randint(0, 1)} {R.choice('pkm')}")
         elif t < 0.85:
             qs.append(f"nbprop {n}")
-        elif t < 0.97:
+        elif t < 0.93:
             qs.append(f"mask {n} {R.choice([1, 2, 3])} {R.randint(0, 1)}")
+        elif t < 0.97:
+            # the neighbourhood as a CellCollection: cells / len / in / select_random_cell / bounded selections
+            l = gen_coll(R, h, names, agents=False).rstrip()
+            qs.append(l if l.split()[1].startswith("nb") else f"coll nb:{n}:{R.choice([1, 2])}:{R.randint(0, 1)} cells")
         else:
             qs.append(f"conns {h.n + 1 if h.kind != 'grid' else ','.join(str(d) for d in h.dims)}")
     # repetition and a second order of the same queries: answers must not depend on earlier queries
@@ -1156,6 +1429,9 @@ def oracle_c07(sc, obs):
                 bad.append(f"edit: `{line}` -> {o}, expected {want}")
             if want == "ok":
                 apply_edit(conn, h, w)
+            continue
+        if w[0] == "coll":
+            bad += oracle_coll(line, o, h, conn, cell_names(h), {}, h.cap)
             continue
         if w[0] not in ("conns", "nbhd", "nbprop", "mask"):
             continue
